@@ -118,12 +118,13 @@ Section OptDecl.
      are the same declaration (field, default, optional-ness) — members spelled in any equivalent way *)
   Theorem optional_decl_equiv nm l l' dv :
     sp_eqs l l' -> forallb member_ok l = true -> forallb member_ok l' = true -> union_written l = true ->
-    is_ok (pyeval (TSub (s2p "AnyOf") l')) = true -> existsb member_none l = true ->
+    is_ok (pyeval (TSub (s2p "AnyOf") l')) = true -> existsb member_none l = true -> eq_immutable dv = true ->
     decl_result re_match e {| d_name := nm; d_annot := true; d_ty := TUnion l; d_eq := dv; d_kw := None; d_opt := false |} =
     decl_result re_match e {| d_name := nm; d_annot := true; d_ty := TSub (s2p "AnyOf") l'; d_eq := dv; d_kw := None;
                               d_opt := true |}.
   Proof.
-    intros Hs Hm Hm' Hw Hok Hn. apply decl_sound. apply de_annot; cbn [d_name d_annot d_kw d_eq d_ty d_opt]; try reflexivity.
+    intros Hs Hm Hm' Hw Hok Hn Hi. apply decl_sound.
+    apply de_annot; cbn [d_name d_annot d_kw d_eq d_ty d_opt]; try reflexivity; try exact Hi.
     - apply sp_union_sub; assumption.
     - rewrite (marks_optional_union l Hw Hm), Hn. reflexivity.
   Qed.
@@ -131,12 +132,13 @@ Section OptDecl.
   (* without a NoneField member neither spelling marks the field: both are required unless listed *)
   Theorem union_decl_equiv nm l l' dv o :
     sp_eqs l l' -> forallb member_ok l = true -> forallb member_ok l' = true -> union_written l = true ->
-    is_ok (pyeval (TSub (s2p "AnyOf") l')) = true -> existsb member_none l = false ->
+    is_ok (pyeval (TSub (s2p "AnyOf") l')) = true -> existsb member_none l = false -> eq_immutable dv = true ->
     decl_result re_match e {| d_name := nm; d_annot := true; d_ty := TUnion l; d_eq := dv; d_kw := None; d_opt := o |} =
     decl_result re_match e {| d_name := nm; d_annot := true; d_ty := TSub (s2p "AnyOf") l'; d_eq := dv; d_kw := None;
                               d_opt := o |}.
   Proof.
-    intros Hs Hm Hm' Hw Hok Hn. apply decl_sound. apply de_annot; cbn [d_name d_annot d_kw d_eq d_ty d_opt]; try reflexivity.
+    intros Hs Hm Hm' Hw Hok Hn Hi. apply decl_sound.
+    apply de_annot; cbn [d_name d_annot d_kw d_eq d_ty d_opt]; try reflexivity; try exact Hi.
     - apply sp_union_sub; assumption.
     - rewrite (marks_optional_union l Hw Hm), Hn, marks_optional_sub. reflexivity.
   Qed.
